@@ -48,6 +48,14 @@ def gen_cases(tier, seed):
                 "full": bool(rng.integers(2)), "store_dense_svecs": bool(rng.integers(2)), "lang": ["C", "Py"][rng.integers(2)],
                 "seed": int(rng.integers(10 ** 6)), "_cost": nu * setup.det3(sm),
             })
+    # structures as read from files with 6 decimals (hexagonal / trigonal cells: 1/3, 2/3 and sqrt(3)/2 are not representable): equal-length images
+    # then agree to ~1e-6 only; supercells 3x3xN and 4x4xN have many pairs on the Wigner-Seitz boundary in those directions
+    for b in range(6 if tier == "quick" else 40):
+        name = ["hcp", "wurtzite", "rhomb_hex"][b % 3]
+        k = [3, 4][int(rng.integers(2))]
+        cases.append({"crystal": {"name": name, "order": "asis", "order_seed": 0, "int_shift": False, "rot_seed": None, "decimals": 6},
+                      "smat": np.diag([k, k, int(rng.integers(1, 3))]).tolist(), "pmat": "P", "fcclass": "sym", "full": bool(rng.integers(2)), "store_dense_svecs": bool(rng.integers(2)),
+                      "lang": "C", "seed": int(rng.integers(10 ** 6)), "_cost": 200})
     return cases
 
 
@@ -78,10 +86,16 @@ def run_case(c):
     Ls, xs = np.array(sc.cell), np.array(sc.scaled_positions)
     n = len(sc)
     sym_ok = False
+    rounded = c["crystal"].get("decimals") is not None
+    ph_model = ph
+    if rounded:
+        # force constants and operations of the IDEAL crystal (same atom order); the object under test is built from the rounded structure
+        ph_model, _ = setup.build_phonopy(dict(c, crystal=dict(c["crystal"], decimals=None), pmat=pm if pm != "P" else None))
+        Ls, xs = np.array(ph_model.supercell.cell), np.array(ph_model.supercell.scaled_positions)
     if c["fcclass"] == "sym":
         try:
-            rots, trans = setup.supercell_ops(ph)
-            prots, _ = models.symmetry_ops(pr.cell, pr.scaled_positions, setup.numbers_of(pr.symbols))
+            rots, trans = setup.supercell_ops(ph_model)
+            prots, _ = models.symmetry_ops(ph_model.primitive.cell, ph_model.primitive.scaled_positions, setup.numbers_of(pr.symbols))
         except models.SpglibFailed:
             return {"skip": "spglib_none_in_oracle", "nontrivial": False}
         fc = models.project_ops(Ls, xs, rots, trans, rng, decay=2.0)
@@ -142,7 +156,8 @@ def run_case(c):
                 lamR = np.linalg.eigvalsh(_eig(dm, np.array(R) @ q, lang))
                 obs["n_rotation"] = obs.get("n_rotation", 0) + 1
                 e = np.abs(lamR - lam).max()
-                if e > 1e-9 * ls:
+                # (rounded structure: interatomic vectors, hence phases, are off by ~1e-6 relative; a lost tie changes the spectrum by ~1e-3)
+                if e > (3e-5 if rounded else 1e-9) * ls:
                     bad("rotation_invariance", "spectrum changes by %.3e (scale %.3e) under q -> Rq, R=%s" % (e, ls, np.array(R).tolist()))
                     break
     if sym_ok:
